@@ -663,10 +663,21 @@ var boundedHarness = map[string]string{"C05": "internal/store", "C06": "internal
 
 // runBounded runs TestVerifBounded of the package's replay template (go test -overlay) for the property.
 func runBounded(c *Ctx, prop, tier, pkg, replayDir string) (map[string]any, [][2]string) {
+	return runBoundedOverlay(c, prop, tier, pkg, replayDir, nil)
+}
+
+// runBoundedOverlay: extra maps source files to replacement contents (a mutant in the self test).
+func runBoundedOverlay(c *Ctx, prop, tier, pkg, replayDir string, extra map[string][]byte) (map[string]any, [][2]string) {
 	tmpl := filepath.Join(verifRoot(), "replay", "templates", pkg, "_package_test.go")
 	dir := filepath.Join(replayDir, "bounded")
 	_ = os.MkdirAll(dir, 0o755)
-	ov := map[string]any{"Replace": map[string]string{filepath.Join(c.repo, pkg, "zz_verif_replay_test.go"): tmpl}}
+	repl := map[string]string{filepath.Join(c.repo, pkg, "zz_verif_replay_test.go"): tmpl}
+	for f, content := range extra {
+		tf := filepath.Join(dir, "mutant_"+sanitizeFile(f))
+		_ = os.WriteFile(tf, content, 0o644)
+		repl[f] = tf
+	}
+	ov := map[string]any{"Replace": repl}
 	ob, _ := json.Marshal(ov)
 	ovFile := filepath.Join(dir, "overlay.json")
 	_ = os.WriteFile(ovFile, ob, 0o644)
